@@ -130,8 +130,14 @@ def check(args):
     samples = []
     t1 = time.time()
 
-    def on_result(idx, status, out):
+    retry = []
+
+    def on_result(idx, status, out, final=False):
         if status != "ok":
+            if status == "timeout" and not final and len(retry) < 16:
+                # the wall clock is not simulated: a run killed by it is repeated alone before anything is said
+                retry.append(idx)
+                return
             report.harness_errors.append(f"seed {seeds[idx]}: {status}: {str(out)[-800:]}")
             return
         agg["runs"] += 1
@@ -152,6 +158,9 @@ def check(args):
             samples.append(seeds[idx])
 
     core.run_batch(_seed_task, seeds, timeout=120.0, deadline=time.monotonic() + budget, on_result=on_result)
+    for idx in list(retry):
+        st, out = core.run_in_child(_seed_task, (seeds[idx],), timeout=600.0)
+        on_result(idx, st, out, final=True)
     t_hist = time.time() - t1
     # ---- ordered pairs a;b on fresh shared instances (exhaustive in the thorough tier)
     t2 = time.time()
